@@ -244,7 +244,12 @@ func randPat(rng *rand.Rand, w int) []int {
 	return ints(b)
 }
 
+var nbtOddTexts = []string{"-", "+", ".", "-x", "+1", "-.", "1e5", "a/b", "/", "0x1", "true", "12L", "中"}
+
 func randKey(rng *rand.Rand) []int {
+	if rng.Intn(10) == 0 {
+		return ints([]byte(nbtOddTexts[rng.Intn(len(nbtOddTexts))]))
+	}
 	switch rng.Intn(6) {
 	case 0:
 		return []int{}
@@ -284,6 +289,10 @@ func randTree(rng *rand.Rand, depth int, tag int) *nbtNode {
 		}
 		return &nbtNode{T: tag, Pat: pat}
 	case tag == 7 || tag == 8:
+		if tag == 8 && rng.Intn(6) == 0 {
+			// texts a printer has to look at character by character: a lone sign, sign + letter, number-like, a slash
+			return &nbtNode{T: 8, Pat: ints([]byte(nbtOddTexts[rng.Intn(len(nbtOddTexts))]))}
+		}
 		n := []int{0, 1, 3, 40, 300}[rng.Intn(5)]
 		b := make([]byte, n)
 		rng.Read(b)
@@ -349,17 +358,26 @@ type goField struct {
 	// Zero: the generator gives this field its zero value (a field that the name rule hides is not encoded, so only
 	// its zero value can come back from a round trip)
 	Zero bool `json:"-"`
+	// EmbPtr: the embedded struct is embedded through a POINTER (`struct{ *Inner; ... }`); the NBT side is the same as
+	// for a value-embedded struct (the generator always gives it a pointee)
+	EmbPtr bool `json:"embptr,omitempty"`
 }
 
 type goType struct {
-	K  string    `json:"k"`
-	E  *goType   `json:"e,omitempty"`
-	N  int       `json:"-"` // array length
-	Fs []goField `json:"fs,omitempty"`
+	// GoInt: the Go type is the platform `int` (64 bits here) while the NBT side of it is K = "i32", the elements of an
+	// int array: `[]int` is a destination the library accepts for TagIntArray (it refuses []uint, and []int for long arrays)
+	GoInt bool      `json:"goint,omitempty"`
+	K     string    `json:"k"`
+	E     *goType   `json:"e,omitempty"`
+	N     int       `json:"-"` // array length
+	Fs    []goField `json:"fs,omitempty"`
 }
 
 func (t goType) MarshalJSON() ([]byte, error) {
 	m := map[string]any{"k": t.K}
+	if t.GoInt {
+		m["goint"] = true
+	}
 	switch t.K {
 	case "slice", "array", "map", "ptr":
 		m["e"] = t.E
@@ -442,6 +460,9 @@ func (t *goType) reflectType() reflect.Type {
 				sf.Anonymous = true
 				sf.Name = fmt.Sprintf("E%d", i)
 				sf.Tag = ""
+				if f.EmbPtr {
+					sf.Type = reflect.PointerTo(sf.Type)
+				}
 			} else if f.Ut {
 				sf.Name = string(bytesOf(f.Name))
 				sf.Tag = ""
@@ -454,6 +475,12 @@ func (t *goType) reflectType() reflect.Type {
 			fs = append(fs, sf)
 		}
 		return reflect.StructOf(fs)
+	}
+	if t.GoInt {
+		if t.K[0] == 'u' {
+			return reflect.TypeOf(uint(0))
+		}
+		return reflect.TypeOf(int(0))
 	}
 	return goScalarKinds[t.K]
 }
@@ -517,7 +544,12 @@ func (t *goType) setValue(rv reflect.Value, v any) {
 	case "struct":
 		a, _ := v.([]any)
 		for i := range t.Fs {
-			t.Fs[i].Ty.setValue(rv.Field(i), a[i])
+			fv := rv.Field(i)
+			if t.Fs[i].EmbPtr {
+				fv.Set(reflect.New(fv.Type().Elem()))
+				fv = fv.Elem()
+			}
+			t.Fs[i].Ty.setValue(fv, a[i])
 		}
 	}
 }
@@ -564,8 +596,14 @@ func (t *goType) getValue(rv reflect.Value) any {
 		}
 		return toAbsBytes([]byte{0})
 	case "i8", "i16", "i32", "i64":
+		if w := goScalarWidth[t.K]; t.GoInt && w < 8 && (rv.Int() < -(1<<(8*w-1)) || rv.Int() >= 1<<(8*w-1)) {
+			return toAbsBytes(beBytes(uint64(rv.Int()), 8)) // a value no element of that width can be: kept at full width
+		}
 		return toAbsBytes(beBytes(uint64(rv.Int()), goScalarWidth[t.K]))
 	case "u8", "u16", "u32", "u64":
+		if w := goScalarWidth[t.K]; t.GoInt && w < 8 && rv.Uint() >= 1<<(8*w) {
+			return toAbsBytes(beBytes(rv.Uint(), 8))
+		}
 		return toAbsBytes(beBytes(rv.Uint(), goScalarWidth[t.K]))
 	case "f32":
 		f := rv.Float()
@@ -618,7 +656,14 @@ func (t *goType) getValue(rv reflect.Value) any {
 				out[i] = "skipped" // a field tagged "-" takes no part in the encoding
 				continue
 			}
-			out[i] = t.Fs[i].Ty.getValue(rv.Field(i))
+			fv := rv.Field(i)
+			if t.Fs[i].EmbPtr {
+				if fv.IsNil() {
+					fv = reflect.New(fv.Type().Elem()) // nothing was decoded into it: the zero values
+				}
+				fv = fv.Elem()
+			}
+			out[i] = t.Fs[i].Ty.getValue(fv)
 		}
 		return out
 	}
@@ -686,7 +731,7 @@ func randGoType(rng *rand.Rand, depth int) *goType {
 		}
 		if rng.Intn(3) == 0 { // a chain of anonymous (embedded) structs, 1..4 levels, promoted field names unique
 			embSeq++
-			t.Fs = append(t.Fs, goField{Name: []int{}, Ty: randEmbedded(rng, 1+rng.Intn(4), embSeq), Emb: true})
+			t.Fs = append(t.Fs, goField{Name: []int{}, Ty: randEmbedded(rng, 1+rng.Intn(4), embSeq), Emb: true, EmbPtr: rng.Intn(3) == 0})
 		}
 		return t
 	}
